@@ -80,7 +80,11 @@ def cstep (s : CState) : CStep → Option CState
     if s.role != .primary then some s   -- "not role primary; not replicating the commit"
     else
       let s1 := if s.proot != s.nextHead then { s with nextHead := s.proot } else s
-      if !caughtUp s1 then some { s1 with waiters := s1.proot :: s1.waiters } else some s1
+      if !caughtUp s1 then some { s1 with waiters := s1.proot :: s1.waiters }
+      else
+        -- Execute signals the replicate thread, whose quiesce branch (caught up, HasWaiters)
+        -- releases every outstanding waiter as a success
+        some { s1 with acked := s1.waiters ++ s1.acked, waiters := [] }
   | .init =>
     if s.role == .primary && s.nextHead == 0 then some { s with nextHead := s.proot } else none
   | .begin =>
@@ -93,7 +97,12 @@ def cstep (s : CState) : CStep → Option CState
     | some r =>
       let s1 := { s with inflight := none, sroot := r, shist := r :: s.shist }
       if s.role == .primary then
-        some { s1 with lastPushed := r, acked := s.attemptWaiters ++ s.acked, attemptWaiters := [] }
+        -- back in the replicate loop: when this made the hook caught up (`nextHead` did not move
+        -- meanwhile) the quiesce branch also releases the waiters registered during the attempt
+        if s.nextHead == r then
+          some { s1 with lastPushed := r, acked := s.waiters ++ (s.attemptWaiters ++ s.acked), attemptWaiters := [], waiters := [] }
+        else
+          some { s1 with lastPushed := r, acked := s.attemptWaiters ++ s.acked, attemptWaiters := [] }
       else some { s1 with attemptWaiters := [] }
   | .finishFail =>
     match s.inflight with
@@ -110,14 +119,33 @@ def cstep (s : CState) : CStep → Option CState
     -- waitForHooksToReplicate saw every hook caught up; setRole zeroes the heads and cancels the
     -- running attempt (its push can no longer land: epoch/role interceptors on the standby)
     if s.role == .primary && s.readOnly && caughtUp s then
+      -- a non-primary hook `isCaughtUp`, so the quiesce branch releases every outstanding waiter
       some { s with role := .standby, nextHead := 0, lastPushed := 0, inflight := none,
-                    waiters := [], attemptWaiters := [] }
+                    acked := s.waiters ++ (s.attemptWaiters ++ s.acked), waiters := [], attemptWaiters := [] }
     else none
   | .standbyRestart =>
     -- a running attempt fails; the standby's root is durable
     match s.inflight with
     | none => some s
     | some _ => some { s with inflight := none, waiters := s.attemptWaiters ++ s.waiters, attemptWaiters := [] }
+
+/-- EXTENSION used only for the refutation in Props/C45: the primary's root returns to an EARLIER
+value `r` (content addressing: e.g. create a branch, then delete it).  The main theorems are about
+`cstep`, where every write yields a fresh root. -/
+def revertRoot (s : CState) (r : Nat) : Option CState :=
+  if s.role == .primary && !s.readOnly && s.hist.contains r then
+    some { s with proot := r, hist := r :: s.hist }
+  else none
+
+inductive XStep where
+  | base (a : CStep)
+  | revert (r : Nat)
+  deriving DecidableEq, Repr
+
+def xrun (s : CState) : List XStep → CState
+  | [] => s
+  | .base a :: as => xrun ((cstep s a).getD s) as
+  | .revert r :: as => xrun ((revertRoot s r).getD s) as
 
 def crun (s : CState) : List CStep → CState
   | [] => s
